@@ -8,7 +8,7 @@ as conditions, so every structural path counts) over the qubit places
 
     q, r           locals                 t[0], t[1]   elements of the tuple t
     o              owned parameter        s.f          field of the struct s = S(..)
-    p              borrowed parameter
+    p              borrowed parameter     u.f, u.g     fields of the struct u = S2(.., ..)
 
 is (1) walked by a reference model - one ownership automaton per leaf place,
 
@@ -47,7 +47,7 @@ from vlib.progenum import Atom
 ID = "C06"
 LEVEL = "model_checking"
 
-PLACES = ("q", "r", "o", "p", "t0", "t1", "sf")
+PLACES = ("q", "r", "o", "p", "t0", "t1", "sf", "uf", "ug")
 IDX = {v: i for i, v in enumerate(PLACES)}
 LINEAR_TITLES = {"Copy violation", "Drop violation", "Not owned", "Borrow shadowed"}
 
@@ -106,6 +106,21 @@ A = {a.name: a for a in [
     _a("s.f=new", "s.f = qubit()", ("PF", "sf")),
     _a("consume_s(s)", "consume_s(s)", T("sf")),
     _a("q=s.f", "q = s.f", T("sf", "move"), P("q")),
+    # struct with two linear fields (partial moves)
+    _a("u=S2(new,new)", "u = S2(qubit(), qubit())", P("uf"), P("ug")),
+    _a("consume(u.f)", "consume(u.f)", T("uf")),
+    _a("consume(u.g)", "consume(u.g)", T("ug")),
+    _a("h(u.g)", "h(u.g)", B("ug")),
+    _a("u.f=new", "u.f = qubit()", ("PF", "uf")),
+    _a("u.g=new", "u.g = qubit()", ("PF", "ug")),
+    _a("q=u.f", "q = u.f", T("uf", "move"), P("q")),
+    _a("consume_u(u)", "consume_u(u)", T("uf"), T("ug")),
+    # composite atoms that keep a qubit's life-cycle balanced (used to reach deeper
+    # *safe* programs within the same statement bound)
+    _a("reset(q)", "consume(q)\nq = qubit()", T("q"), P("q")),
+    _a("q-via-r", "r = q\nq = r", T("q", "move"), P("r"), T("r", "move"), P("q")),
+    _a("h(q);h(q)", "h(q)\nh(q)", B("q"), B("q")),
+    _a("consume(q);return", "consume(q)\nreturn", T("q"), kind="return"),
     # returns
     _a("return", "return", kind="return"),
     _a("return q", "return q", T("q", "return"), kind="return"),
@@ -137,8 +152,15 @@ FAMILIES = {
     "struct": (_pick("s=S(new)"),
                _pick("s=S(new)", "s=S(q)", "q=s.f", "h(s.f)", "consume(s.f)", "s.f=new",
                      "consume_s(s)", "consume(q)", "return"), "None"),
+    "struct2": (_pick("u=S2(new,new)"),
+                _pick("consume(u.f)", "consume(u.g)", "h(u.g)", "u.f=new", "u.g=new", "q=u.f",
+                      "consume(q)", "consume_u(u)", "return"), "None"),
     "retq": ((), _pick("q=new", "h(q)", "consume(q)", "consume(o)", "return q", "return o",
                        "return new"), "qubit"),
+    # q live from the start, composite atoms: most programs are close to safe
+    "balanced": (_pick("q=new"),
+                 _pick("h(q);h(q)", "reset(q)", "q-via-r", "consume(q)", "q=new",
+                       "consume(q);return", "return"), "None"),
     # thorough only
     "core+": (_pick("q=new"),
               _pick("q=new", "r=new", "h(q)", "h(r)", "consume(q)", "consume(r)", "r=q", "q=r",
@@ -153,9 +175,9 @@ FAMILIES = {
 def bounds(tier: str):
     if tier == "quick":
         return [("core", 4, 2), ("live", 4, 2), ("params", 3, 2), ("tuple", 3, 2),
-                ("struct", 3, 2), ("retq", 3, 2), ("exotic", 2, 1)]
+                ("struct", 3, 2), ("struct2", 3, 2), ("retq", 3, 2), ("balanced", 3, 2), ("exotic", 2, 1)]
     return [("core", 5, 3), ("live", 5, 3), ("params", 4, 3), ("tuple", 4, 2), ("struct", 4, 2),
-            ("retq", 4, 3), ("core+", 4, 2), ("exotic", 3, 2)]
+            ("struct2", 4, 2), ("retq", 4, 3), ("balanced", 4, 3), ("core+", 4, 2), ("exotic", 3, 2)]
 
 
 def programs(tier: str):
@@ -225,14 +247,14 @@ def _step_factory(events: set):
     return step
 
 
-CROSSCHECK_MAX_STMTS = 5
+CROSSCHECK_MAX_PATHS = 2000
 
 
 def model(body, ret_ty: str) -> dict:
     """Explores the product of the ownership automata with the structured control
     flow.  Returns verdict SAFE / VIOLATION / UNDEF (+ 'exotic' flag) and counts.
 
-    For small programs the fixpoint exploration is cross-checked against a plain
+    For programs with few paths the fixpoint exploration is cross-checked against a plain
     path-by-path enumeration (a disagreement is a harness error, not a finding)."""
     used = _mentions(body, set())
     init = ["U"] * len(PLACES)
@@ -243,7 +265,7 @@ def model(body, ret_ty: str) -> dict:
     init = tuple(init)
     events: set = set()
     ex = pg.explore_paths(body, init, _step_factory(events))
-    if pg.count_stmts(body) <= CROSSCHECK_MAX_STMTS:
+    if pg.path_count_bound(body, 4) <= CROSSCHECK_MAX_PATHS:
         ev2: set = set()
         bf, be = pg.brute_force_paths(body, init, _step_factory(ev2), max_iter=4)
         if be != ex.exits or ev2 != events or any(bf[p] != ex.before[p] for p in bf):
@@ -272,8 +294,14 @@ from guppylang.std.quantum import h
 @guppy.struct
 class S:
     f: qubit
+@guppy.struct
+class S2:
+    f: qubit
+    g: qubit
 @guppy.declare
 def consume(q: qubit @owned) -> None: ...
+@guppy.declare
+def consume_u(u: S2 @owned) -> None: ...
 @guppy.declare
 def consume_s(s: S @owned) -> None: ...
 @guppy.declare
@@ -281,8 +309,8 @@ def borrow_s(s: S) -> None: ...
 @guppy.declare
 def consume_t(t: tuple[qubit, qubit] @owned) -> None: ...
 '''
-HEADER = (f"from {PRELUDE_MOD} import guppy, qubit, owned, h, S, consume, consume_s, "
-          f"borrow_s, consume_t\n")
+HEADER = (f"from {PRELUDE_MOD} import guppy, qubit, owned, h, S, S2, consume, consume_s, "
+          f"consume_u, borrow_s, consume_t\n")
 
 
 def _ensure_prelude() -> None:
@@ -305,6 +333,17 @@ def source(body, ret_ty: str, used: set) -> str:
     return HEADER + f"@guppy\ndef main({', '.join(params)}) -> {ret_ty}:\n" + text
 
 
+def _validator_gist(msg: str) -> str:
+    """The informative line of the hugr validator's multi-line message."""
+    lines = [ln.strip() for ln in msg.split("\n") if ln.strip()]
+    for i, ln in enumerate(lines):
+        if ln.startswith("Stack backtrace"):
+            lines = lines[:i]
+            break
+    caused = [ln for ln in lines if ln[:2] in ("0:", "1:", "2:", "3:")]
+    return (caused[-1] if caused else lines[0])[:200]
+
+
 def run_guppy(src: str, want_compile: bool):
     """check(); if accepted and wanted: compile_function() + HUGR validation."""
     from vlib import gload
@@ -317,7 +356,7 @@ def run_guppy(src: str, want_compile: bool):
             post = "compile-" + out2.brief()
         else:
             v = gload.validate(out2.package)
-            post = "valid" if v is None else "INVALID: " + v[:300]
+            post = "valid" if v is None else "INVALID: " + _validator_gist(v)
     if mod is not None:
         gload.unload(mod)
     return out, post
